@@ -126,8 +126,11 @@ func (storage *tsstoreImpl) ForceFlush(s *shard) {
 }
 
 func (storage *tsstoreImpl) writeSnapshot(s *shard) {
-	if s.SnapShotter != nil {
-		atomic.StoreUint32(&s.SnapShotter.RaftFlag, 0)
+	// The shard learns the partition's SnapShotter with its first replicated write, possibly while
+	// this flush runs: freeze and signal through the same one, or not at all.
+	snapShotter := s.SnapShotter
+	if snapShotter != nil {
+		atomic.StoreUint32(&snapShotter.RaftFlag, 0)
 	}
 	s.snapshotLock.Lock()
 	if s.activeTbl == nil {
@@ -162,9 +165,9 @@ func (storage *tsstoreImpl) writeSnapshot(s *shard) {
 	// files the raft log is their only durable copy, and a restart replays it from the raft
 	// snapshot index. The snapshot may therefore be taken only now; the committed index has been
 	// frozen (RaftFlag 0) since before the table switch, so it covers nothing newer than this table.
-	if s.SnapShotter != nil {
-		s.SnapShotter.RaftFlushC <- true
-		atomic.StoreUint32(&s.SnapShotter.RaftFlag, 1)
+	if snapShotter != nil {
+		snapShotter.RaftFlushC <- true
+		atomic.StoreUint32(&snapShotter.RaftFlag, 1)
 	}
 
 	//This fail point is used in scenarios where "s.snapshotTbl" is not recycled
